@@ -151,6 +151,15 @@ func Corpus() *Program {
 		fld("EmbO", 2, KMessage, ref("EmbO"), embed(), nonNull()),
 		fld("EmbO2", 4, KMessage, ref("EmbO2"), embed(), nonNull()))
 
+	// a oneof promoted through two levels of by-value embedding
+	msg("EmbMid", nil,
+		fld("EmStr", 1, KString),
+		fld("EmbO2", 2, KMessage, ref("EmbO2"), embed(), nonNull()),
+		fld("EmNum", 3, KInt32))
+	msg("EmbedTwo", nil,
+		fld("TwoTop", 1, KString),
+		fld("EmbMid", 2, KMessage, ref("EmbMid"), embed(), nonNull()),
+		fld("TwoList", 3, KString, list()))
 	msg("EmbD", nil,
 		fld("EdStr", 1, KString), fld("EdList", 2, KString, list()), fld("EdLeaf", 3, KMessage, ref("Leaf")))
 	msg("EmbedDeep", nil,
@@ -189,7 +198,7 @@ func Corpus() *Program {
 	p.Config = Config{
 		Types: []string{"Scalars", "Temporal", "Collections", "Nesting", "Oneofs", "Embedding", "EmbedOneof",
 			"EmbedDeep", "Naming", "Empties", "Sink", "DeepNest", "Interleave",
-			"Leaf", "Mid", "WithOneof"}, // selected types that also occur nested inside other selected types
+			"Leaf", "Mid", "WithOneof", "EmbedTwo"}, // selected types that also occur nested inside other selected types
 		DurationCustomType: DurationCastName,
 		TimeType:           SimTimeType,
 		DurationType:       SimDurationType,
